@@ -48,7 +48,7 @@ def _pair(draw):
     w = draw(gens.witness_s(pool))
     cls = draw(st.sampled_from(["identical", "sublist", "weakened", "farkas", "scaled", "separated", "unrelated",
                                 "unbounded", "infeasible-left", "infeasible-right", "empty-right", "empty-left",
-                                "equal-bounds", "both-infeasible", "separated-large-constant", "separated-large-constant", "farkas-chain", "lp-hard"]))
+                                "equal-bounds", "both-infeasible", "separated-large-constant", "separated-large-constant", "farkas-chain", "lp-hard", "small-coefficient"]))
     L = draw(gens.termlist_s(pool, w, 1, 5))
     if cls == "lp-hard":
         # a mined, satisfiable, badly scaled system on which the solver's first answer is not optimal, against one of its rows,
@@ -140,6 +140,19 @@ def _pair(draw):
             r2 = draw(gens.term_s(pool, w))
             R = [[dict(r2[0]), float(r2[1] - big * draw(st.sampled_from([1, 2, 10, 50])))]]
             cls += "/right"
+    elif cls == "small-coefficient":
+        # a coefficient of 2e-6..8e-6 next to an ordinary one; inside the box it moves the row by up to 8e-3, far beyond the tolerance
+        eps = draw(st.sampled_from([5e-6, 8e-6, 2.0 ** -18, 2e-6])) * draw(st.sampled_from([1, -1]))
+        c = float(draw(st.integers(-2, 3)))
+        sg = 1.0 if eps > 0 else -1.0
+        if draw(st.booleans()):
+            # on the right: y <= c and |x| <= 1000 do not imply y + eps x <= c
+            L = [[{"b": 1.0}, c], [{"a": 1.0}, 1000.0], [{"a": -1.0}, 1000.0]]
+            R = [[{"b": 1.0, "a": eps}, c + draw(st.sampled_from([0.0, 0.001, 0.01]))]]
+        else:
+            # on the left: y + eps x <= c with sg*x >= 1000 implies y <= c - |eps|*1000
+            L = [[{"b": 1.0, "a": eps}, c], [{"a": -sg}, -1000.0]]
+            R = [[{"b": 1.0}, c - abs(eps) * 1000.0 * draw(st.sampled_from([1.0, 0.5, 2.0]))]]
     elif cls == "unrelated":
         R = draw(gens.termlist_s(pool, w, 1, 4))
     elif cls == "unbounded":
@@ -272,8 +285,11 @@ def _judge(op, got, expected, L, R, labels, nontrivial_shape):
     labels = labels + ["expected-%s" % expected]
     viol = None
     if bool(got) != expected:
+        allt = []
+        for side in (L, R):
+            allt += (side["a"] + side["g"]) if isinstance(side, dict) else list(side)
         viol = {"what": "%s answered %s but exact containment is %s" % (op, got, expected),
-                "sig": {"kind": "wrong-answer", "op": op, "expected": expected},
+                "sig": {"kind": "wrong-answer", "op": op, "expected": expected, "ill_conditioned": ill_conditioned(allt)},
                 "detail": {"left": L, "right": R}}
     return {"viol": viol, "nontrivial": nontrivial_shape, "labels": labels, "outcome": "judged"}
 
